@@ -19,6 +19,7 @@ import (
 	"errors"
 	"fmt"
 	"io"
+	"math"
 	"net/http"
 	"strconv"
 	"strings"
@@ -422,7 +423,15 @@ func restDecodeTimeout(timeout string) (time.Duration, error) {
 	if err != nil {
 		return 0, fmt.Errorf("invalid timeout %q: %w", timeout, err)
 	}
-	return time.Duration(val * float64(time.Second)), nil
+	if math.IsNaN(val) || val < 0 {
+		return 0, fmt.Errorf("invalid timeout %q: must be a non-negative number of seconds", timeout)
+	}
+	if nanos := val * float64(time.Second); nanos < float64(math.MaxInt64) {
+		return time.Duration(nanos), nil
+	}
+	// Beyond what a time.Duration can represent: clamp instead of overflowing
+	// (which yields a negative duration, i.e. a deadline that has already passed).
+	return time.Duration(math.MaxInt64), nil
 }
 
 // Encode timeout as a float in seconds for X-Server-Timeout header.
